@@ -92,3 +92,9 @@ chk("C08", "exploration",
     "B is read from ast.Builtins of the OPA version /repo links (re-established on every dependency bump). Arguments are synthesised from declared types; quick runs controls in two positions each, thorough in all.",
     "exhaustive enumeration of (built-in x embedding position x call syntax) against the deny-list, with vacuity controls, on the real compile path",
     "DESIGN.md §3 C08")
+
+chk("C07", "exploration",
+    "The statement's own axes are each swept completely to 40 (or to the full product): every constraint kind x every small path shape, 1..40 quantified siblings, quantifier chains of depth 1..40 and every ordered quantifier tree with <=5/6 nodes, 1..40 validations over three level distributions, and connectives under 0/10/11/12/25/26/27 enclosing quantifiers; every profile must compile and survive a first evaluation.",
+    "Axes are swept one at a time; sizes beyond 40 are not explored.",
+    "bounded exhaustive enumeration of well-formed profiles along each size axis, on the real compile path",
+    "DESIGN.md §3 C07")
